@@ -589,9 +589,19 @@ class Union(Structure, metaclass=UnionMetaType):
         if self.__class__.dynamic:
             raise NotImplementedError("Modifying a dynamic union is not yet supported")
 
+        missing = object()
+        previous = self.__dict__.get(attr, missing)
         super().__setattr__(attr, value)
         if attr in self.__class__.lookup:
-            self._rebuild(attr)
+            try:
+                self._rebuild(attr)
+            except Exception:
+                # A value that cannot be written leaves the union as it was: its members stay views of its bytes
+                if previous is missing:
+                    self.__dict__.pop(attr, None)
+                else:
+                    object.__setattr__(self, attr, previous)
+                raise
         # Otherwise attr is a field of an anonymous struct member: the assignment went through that member's proxy,
         # which has rebuilt the union already
 
